@@ -43,6 +43,19 @@ def validate(episodes, module="Trace_Rules.tla", cfg="Trace_Rules.cfg", procs=16
              timeout=1800, dfs=False) -> TraceResult:
     """Validate episodes (lists of event dicts).  Episode boundaries are never split across JVMs."""
     t0 = time.time()
+    # episodes cut off by the runner's watchdog are not traces; they are reported as such (the real code did not
+    # return from a call within the limit) and the remaining episodes are validated
+    timed_out = [i for i, e in enumerate(episodes) if len(e) == 1 and e[0].get("k") == "timeout"]
+    if timed_out:
+        keep = [i for i in range(len(episodes)) if i not in set(timed_out)]
+        sub = validate([episodes[i] for i in keep], module, cfg, procs, max_events_per_batch, timeout, dfs)
+        for f in sub.fails:
+            f["episode"] = keep[f["episode"]]
+        for i in timed_out:
+            sub.fails.append({"prop": "TIMEOUT", "clause": "call-did-not-return", "detail": episodes[i][0],
+                              "episode": i, "event": episodes[i][0]})
+        sub.episodes = len(episodes)
+        return sub
     total = sum(len(e) for e in episodes)
     n_batches = max(1, min(len(episodes), max(procs if total > 400 else 1, -(-total // max_events_per_batch))))
     batches = _chunks(episodes, n_batches)
